@@ -231,6 +231,8 @@ class Model:
             elif p[0] == "var":
                 vals.append(self.mlocals.get(p[1]) or
                             self.mglobals.get(p[1]) or "unset")
+            elif p[0] == "errvar":
+                vals.append("noerr")    # (text is never part of a fallback)
             elif p[0] == "expr":
                 vals.append(("v", self.convert(self.ev(p[1]), escape)))
             else:
@@ -297,7 +299,6 @@ class Model:
             self.emit_value(fv, mode or "text")
             if tagged:
                 self.out.append("</" + n["tag"] + ">")
-            # (``error`` stays bound after the fallback - observation O3)
 
     def _named_done(self, n: dict) -> None:
         if n.get("i18n_name") and self.tr_stack:
